@@ -789,6 +789,8 @@ qb_ipcs_us_connect(struct qb_ipcs_service *s,
 		   struct qb_ipc_connection_response *r)
 {
 	char path[PATH_MAX];
+	char dirname[PATH_MAX];
+	char *slash;
 	int32_t fd_hdr;
 	int32_t res = 0;
 	struct ipc_us_control *ctl;
@@ -798,6 +800,14 @@ qb_ipcs_us_connect(struct qb_ipcs_service *s,
 
 	c->request.u.us.sock = c->setup.u.us.sock;
 	c->response.u.us.sock = c->setup.u.us.sock;
+
+	/* Set correct ownership if qb_ipcs_connection_auth_set() has been used */
+	strlcpy(dirname, c->description, sizeof(dirname));
+	slash = strrchr(dirname, '/');
+	if (slash) {
+		*slash = '\0';
+		(void)chown(dirname, c->auth.uid, c->auth.gid);
+	}
 
 	snprintf(r->request, NAME_MAX, "%s-control-%s",
 		 c->description, s->name);
